@@ -9,7 +9,7 @@
   Definitions used in the statements (all in `Proofs/SpanParser.lean`, namespace `Rbql.SpanParser`):
   `bracketRun` (the bracket stack machine alone), `Balanced`, `NoRootComma`, `spaces n` (n ASCII spaces), `letter isB` (`a`/`b`),
   `natDigits n` (`(toString n).toList`), `STAR`/`LITP` (the star marker / the string-literal placeholder prefix), `markerOf`,
-  `isIdent`, `isAliasIdent`, `isAsKw`, `isDigits`, `isFieldVar`, `escName` / `jsEscapeColumnName`, `textKind`, `itemsMatchTexts`.
+  `isIdent`, `isAliasIdent`, `isAsKw`, `isDigits`, `isFieldVar`, `escName` / `jsEscapeColumnName` / `isQuoted`, `textKind`, `itemsMatchTexts`.
   Items classified `.other` get the positional name `colK`: that is `C07_names` (third conjunct) of `Theorems/C07.lean`.
 -/
 import Rbql.Proofs.SpanParser
@@ -144,34 +144,62 @@ the mismatch is between `parseInt` and the JS evaluator, outside this model. -/
 theorem C07_span_leading_zero_observation :
     colInfoOfSpan "a[010]".toList [] = .field false 9 ∧ colInfoOfSpan "a010".toList [] = .field false 9 := by decide
 
-/-! ### 4. `unquote_string` undoes the column-name escaping -/
+/-! ### 4. `unquote_string` undoes the column-name escaping (after the repair: one left-to-right pass) -/
 
-/-- For EVERY column name (any characters) and both quote characters: escaping as `js_string_escape_column_name` does (every
-backslash doubled, then every quote character preceded by a backslash — without the control-character escapes), putting the
-quotes around and unquoting gives the name back.  The order of the two replacements in `unquote_string` (`\q` first, `\\`
-second) is correct for all names: every quote in the escaped text is preceded by its own escape backslash, so the first pass
-removes exactly those, and the second pass halves runs of an even number of backslashes. -/
+/-- For EVERY column name (any characters: TAB, LF, CR, backslashes, both quote characters, …) and both quote characters:
+escaping exactly as `js_string_escape_column_name` of rbql.js does (backslash doubled first, then LF → `\n`, CR → `\r`,
+TAB → `\t`, then the quote character → `\q`, pass by pass in the order of the source), putting the quotes around and
+unquoting gives the name back.  (Before the repair this failed for names with TAB / LF / CR.) -/
+theorem C07_unquote_escaped_full (q : Char) (hq : q = '\'' ∨ q = '"') (name : Str) :
+    unquoteString (q :: jsEscapeColumnName q name ++ [q]) = some name :=
+  unquoteString_jsEscape q hq name
+
+/-- the special case without the control-character escapes (backslashes doubled, quotes escaped, TAB / LF / CR left raw) -/
 theorem C07_unquote_escaped (q : Char) (hq : q = '\'' ∨ q = '"') (name : Str) :
     unquoteString (q :: escName q name ++ [q]) = some name :=
   unquoteString_escName q hq name
 
-/-- the same for the full `js_string_escape_column_name`, for names without LF, CR and TAB -/
-theorem C07_unquote_escaped_full (q : Char) (hq : q = '\'' ∨ q = '"') (name : Str) (hctl : noCtl name = true) :
-    unquoteString (q :: jsEscapeColumnName q name ++ [q]) = some name := by
-  rw [jsEscapeColumnName_noCtl q name hctl]; exact unquoteString_escName q hq name
-
-example : escName '\'' "\\'".toList = "\\\\\\'".toList ∧ unquoteString ('\'' :: escName '\'' "\\'".toList ++ ['\'']) = some "\\'".toList ∧
-    unquoteString ('"' :: escName '"' "\\\\'\"\\".toList ++ ['"']) = some "\\\\'\"\\".toList ∧ noCtl "a b\\".toList = true := by
-  decide
-
-/-- With the control-character escapes the round trip FAILS: a column named `x<TAB>y` is written `"x\ty"` into the variable map
-(and by a user into the query); `unquote_string` does not interpret `\t`, so the header name becomes the four characters
-`x`, backslash, `t`, `y` instead of the column name.  Same for LF and CR. -/
-theorem C07_unquote_control_char_counterexample :
+/-- the TAB / LF / CR instances, explicitly: the column `x<TAB>y` is written `"x\ty"` and read back as `x<TAB>y`; a name mixing
+control characters, a backslash followed by `n`, and both quotes round-trips with either quote character -/
+theorem C07_unquote_control_chars :
     jsEscapeColumnName '"' ['x', '\t', 'y'] = ['x', '\\', 't', 'y'] ∧
-    unquoteString ('"' :: jsEscapeColumnName '"' ['x', '\t', 'y'] ++ ['"']) = some ['x', '\\', 't', 'y'] ∧
+    unquoteString ('"' :: jsEscapeColumnName '"' ['x', '\t', 'y'] ++ ['"']) = some ['x', '\t', 'y'] ∧
     colInfoOfSpan "a[___RBQL_STRING_LITERAL0___]".toList ['"' :: jsEscapeColumnName '"' ['x', '\t', 'y'] ++ ['"']] =
-      .named ['x', '\\', 't', 'y'] := by decide
+      .named ['x', '\t', 'y'] ∧
+    jsEscapeColumnName '\'' ['\n', '\\', 'n', '\r', '\'', '"'] =
+      ['\\', 'n', '\\', '\\', 'n', '\\', 'r', '\\', '\'', '"'] ∧
+    unquoteString ('\'' :: jsEscapeColumnName '\'' ['\n', '\\', 'n', '\r', '\'', '"'] ++ ['\'']) =
+      some ['\n', '\\', 'n', '\r', '\'', '"'] ∧
+    unquoteString ('"' :: jsEscapeColumnName '"' ['\n', '\\', 'n', '\r', '\'', '"'] ++ ['"']) =
+      some ['\n', '\\', 'n', '\r', '\'', '"'] := by decide
+
+/-- A backslash followed by a character outside `\\ ' " n r t` is kept verbatim, as is a text without backslashes (the
+replacement only touches the six escapes the writer produces): `"\x41"` stays the four characters `\x41`, and a final lone
+backslash stays. -/
+theorem C07_unquote_other_backslash_kept :
+    (∀ (c : Char) (rest : Str), c ≠ '\\' ∧ c ≠ '\'' ∧ c ≠ '"' ∧ c ≠ 'n' ∧ c ≠ 'r' ∧ c ≠ 't' →
+      unescapeJs ('\\' :: c :: rest) = '\\' :: c :: unescapeJs rest) ∧
+    (∀ s : Str, '\\' ∉ s → unescapeJs s = s) ∧
+    unescapeJs ['\\'] = ['\\'] ∧
+    unquoteString "\"\\x41\"".toList = some "\\x41".toList ∧
+    unquoteString "'a\\'".toList = some "a\\".toList :=
+  ⟨unescapeJs_bs_kept, unescapeJs_no_bs, unescapeJs_lone, by decide, by decide⟩
+
+/-- `unquote_string` answers `null` exactly for texts shorter than 2 and for texts whose first and last characters are not the
+same quote character (`'` or `"`); a properly quoted text is always accepted and its body is unescaped. -/
+theorem C07_unquote_rejects_unquoted :
+    (∀ s : Str, s.length < 2 → unquoteString s = none) ∧
+    (∀ s : Str, isQuoted s = false → unquoteString s = none) ∧
+    (∀ s : Str, unquoteString s = none ↔ (s.length < 2 ∨ isQuoted s = false)) ∧
+    (∀ (q : Char) (body : Str), q = '\'' ∨ q = '"' → unquoteString (q :: body ++ [q]) = some (unescapeJs body)) :=
+  ⟨fun s h => (unquoteString_none_iff s).mpr (.inl h), fun s h => (unquoteString_none_iff s).mpr (.inr h),
+   unquoteString_none_iff, fun q body hq => unquoteString_quoted q hq body⟩
+
+example : unquoteString "'".toList = none ∧ unquoteString "'ab\"".toList = none ∧ unquoteString "`ab`".toList = none ∧
+    unquoteString "ab".toList = none ∧ unquoteString "''".toList = some [] ∧ isQuoted "'ab\"".toList = false := by decide
+example : escName '\'' "\\'".toList = "\\\\\\'".toList ∧
+    unquoteString ('\'' :: escName '\'' "\\'".toList ++ ['\'']) = some "\\'".toList ∧
+    unquoteString ('"' :: escName '"' "\\\\'\"\\".toList ++ ['"']) = some "\\\\'\"\\".toList := by decide
 
 /-! ### 5. composition with the header theorems -/
 
